@@ -33,7 +33,9 @@ def budget(tier):
 
 
 def gen_case(rng, idx, tier):
-    dag = gen.gen_dag(rng, n_targets=rng.randint(2, 6), p_noout=0.0, shapes=rng.choice(["chain", "diamond", "random", "fan"]))
+    dag = gen.gen_dag(rng, n_targets=rng.randint(2, 6), p_noout=0.08, shapes=rng.choice(["chain", "diamond", "random", "fan"]))
+    for t in dag["targets"]:
+        t["protect_all"] = rng.random() < 0.25  # cleaning such a target deletes nothing but still forgets its record
     steps = []
     for _ in range(rng.randint(6, 14)):
         k = rng.choice(KINDS)
@@ -59,7 +61,7 @@ def run_case(case):
         changes = set()
 
         def write_all():
-            variant = [{"name": t["name"], "ins_expr": repr(t["ins"]), "outs_expr": repr(t["outs"]), "spec": t["spec"], "route": "target"} for t in ts]
+            variant = [{"name": t["name"], "ins_expr": repr(t["ins"]), "outs_expr": repr(t["outs"]), "spec": t["spec"], "route": "target", "protect_expr": repr(t["outs"]) if t.get("protect_all") and t["outs"] else None} for t in ts]
             proj.write_workflow(gen.render_workflow(variant))
             cfg = {"backend": "slurm"}
             if enabled:
